@@ -116,6 +116,11 @@ def check_complete_run(rec, prop="C13"):
                     if len(arrs) != n_chain or arrs[c].shape[0] != R:
                         v.append(violation("trace-shape", f"{prop} trace-shape", f"trace {k}: {len(arrs)} chains, rows {arrs[c].shape[0]}, expected {n_chain} x {R}"))
                         return v
+                    want_dtype = np.asarray(val).dtype
+                    if arrs[c].dtype != want_dtype:
+                        v.append(violation("trace-dtype", f"{prop} trace-dtype",
+                                           f"trace[{k!r}] has dtype {arrs[c].dtype} but the traced quantity (last trace function returning that key) has dtype {want_dtype}: values are silently cast on assignment"))
+                        return v
                     got = arrs[c][r]
                     want = np.asarray(val).astype(arrs[c].dtype)
                     if not _eq_nan(got, want):
